@@ -226,6 +226,15 @@ def eval_roundtrip(case):
             want = ''.join(chr(min(ord(c) - 33, 51) + 33) for c in orig)
             if got['RQ'] != want:
                 out.bad('RQ-not-original-phred', '%s: input UMI qualities %r, decoded RQ %r, expected %r' % (name, orig, got['RQ'], want))
+        # the sequencing index as it stood in the input header (raw, aa) and its whitelisted correction (aA)
+        if case['header'] in ('illumina', 'index_mismatch') and 'aa' in got:
+            raw_idx = meta['index_seq']
+            if case['header'] == 'index_mismatch':
+                raw_idx = ('A' if raw_idx[0] != 'A' else 'C') + raw_idx[1:]
+            if got['aa'] != raw_idx:
+                out.bad('raw-index-not-the-index-of-the-input-header', '%s: decoded aa %r, the input header carried %r (decoded aA %r)' % (name, got['aa'], raw_idx, got.get('aA')))
+            elif 'aA' in got and got['aA'] != meta['index_seq']:      # strategies without an index parser (CHICTV) write aa only
+                out.bad('corrected-index-not-the-whitelisted-index', '%s: decoded aA %r, whitelisted index %r' % (name, got.get('aA'), meta['index_seq']))
         if 'RX' in got:
             has_umi = True
         # raw and corrected cell barcode against the bases the harness put into the read and the whitelist
